@@ -6,7 +6,6 @@ import ThriftVerif.Lib.ResolveLemmas.ConstBind
 namespace Sem
 
 structure CandCtx (p : Program) (i : Nat) (f : File) (ce : CEnv) : Prop where
-  sane : p.saneNames = true
   self : ce.self = i
   env : EnvGood p i f ce.env
   views : AllViews p ce.views
@@ -17,7 +16,7 @@ theorem enumDen_viewed {p : Program} {views : Nat → Option FileView} (hv : All
   intro j b e idx h
   induction h with
   | enum _ _ => intro hj; exact hj
-  | tdLoc _ _ _ _ _ _ ih => intro hj; exact ih hj
+  | tdLoc _ _ _ _ _ _ _ ih => intro hj; exact ih hj
   | @tdQual j f td n a b k j' c e idx h1 _ _ _ _ h6 _ ih =>
     intro ⟨v, hvj⟩
     obtain ⟨g, hg, _, _, _, _, _, _, hcl⟩ := (hv j v hvj).ex
@@ -108,7 +107,7 @@ theorem alt_two_spec {p : Program} {i : Nat} {f : File} {ce : CEnv} (C : CandCtx
         | some vals =>
           simp only at hc
           obtain ⟨e1, e2⟩ := mem_enumCands.mp hc
-          obtain ⟨e, hed, hev⟩ := getEnum_sound C.sane C.views _ _ _ _ _ _ hg
+          obtain ⟨e, hed, hev⟩ := getEnum_sound C.views _ _ _ _ _ _ hg
           rw [e1]
           exact ConstCand.enumValue hsp hed (enumVals_has hev e2)
       · obtain ⟨j, ii, h1, h2, h3, h4⟩ := (mem_incConstCands a v _ 0 c).mp hc
@@ -141,7 +140,7 @@ theorem alt_three_spec {p : Program} {i : Nat} {f : File} {ce : CEnv} (C : CandC
     obtain ⟨j, ii, vals, idx, h1, h2, h3, h4, h5⟩ := (m2 c).mp hc
     obtain ⟨inc, g, q1, q2, q3, q4, _⟩ := incs_at C.env.incs h1
     rw [q3] at h3
-    obtain ⟨e, hed, hev⟩ := getEnum_sound C.sane C.views _ _ _ _ _ _ h3
+    obtain ⟨e, hed, hev⟩ := getEnum_sound C.views _ _ _ _ _ _ h3
     rw [h5]
     simp only [Nat.zero_add]
     exact ConstCand.incEnumValue C.env.file hsp hsp2 q1 (by rw [← q2]; exact h2) hed (enumVals_has hev h4)
@@ -173,9 +172,7 @@ theorem cands_spec {p : Program} {i : Nat} {f : File} {ce : CEnv} (C : CandCtx p
     intro y hy
     subst hid
     cases hy with
-    | localConst h1 _ h3 =>
-      rw [C.env.file] at h1; simp only [Option.some.injEq] at h1; subst h1
-      exact absurd rfl (sane_of C.sane C.env.file h3).2.2
+    | localConst _ h2 _ _ => exact absurd rfl h2
     | enumValue h1 _ _ => simp [splitLastDot] at h1
     | incConst _ h1 _ _ _ _ => simp [splitLastDot] at h1
     | incEnumValue _ h1 _ _ _ _ _ => simp [splitLastDot] at h1
@@ -200,13 +197,13 @@ theorem cands_spec {p : Program} {i : Nat} {f : File} {ce : CEnv} (C : CandCtx p
             simp only [List.mem_cons, List.not_mem_nil, or_false] at hc
             subst hc
             subst hcc
-            exact ConstCand.localConst C.env.file hsp ((C.env.n2c id _).mp hn)
+            exact ConstCand.localConst C.env.file hid hsp ((C.env.n2c id _).mp hn)
           · rw [if_neg hcc] at h1
             simp only [Except.ok.injEq] at h1
             subst h1; simp at hc
       · intro y hy
         cases hy with
-        | localConst q1 _ q3 =>
+        | localConst q1 _ _ q3 =>
           rw [C.env.file] at q1; simp only [Option.some.injEq] at q1; subst q1
           rw [(C.env.n2c id .constant).mpr q3] at h1
           simp only [if_true, Except.ok.injEq] at h1
@@ -228,7 +225,7 @@ theorem cands_spec {p : Program} {i : Nat} {f : File} {ce : CEnv} (C : CandCtx p
         refine ⟨s1, ?_⟩
         intro y hy
         cases hy with
-        | localConst _ q2 _ => rw [hsp] at q2; cases q2
+        | localConst _ _ q2 _ => rw [hsp] at q2; cases q2
         | enumValue q1 q2 q3 =>
           rw [hsp] at q1; simp only [Option.some.injEq, Prod.mk.injEq] at q1
           obtain ⟨rfl, rfl⟩ := q1
@@ -256,7 +253,7 @@ theorem cands_spec {p : Program} {i : Nat} {f : File} {ce : CEnv} (C : CandCtx p
           · exact t1 c hc
         · intro y hy
           cases hy with
-          | localConst _ q2 _ => rw [hsp] at q2; cases q2
+          | localConst _ _ q2 _ => rw [hsp] at q2; cases q2
           | enumValue q1 q2 q3 =>
             rw [hsp] at q1; simp only [Option.some.injEq, Prod.mk.injEq] at q1
             obtain ⟨rfl, rfl⟩ := q1
